@@ -22,6 +22,7 @@ pub struct Stats {
     pub huge_symbols: AtomicU64,
     pub all_kprime: AtomicU64,
     pub row_floods: AtomicU64,
+    pub large_objects: AtomicU64,
     pub all_kprime_solved: AtomicU64,
 }
 
@@ -64,6 +65,22 @@ pub fn gen_case(seed: u64, idx: u64, family: u64, max_kt: usize, max_t: usize) -
         let Kt = rng.range(1, 120) as usize;
         let Z = rng.range(1, Kt.min(3) as u64) as usize;
         Shape { F: Kt * T - rng.below(T as u64) as usize, T, Z, N, Al }
+    } else if family == 4 {
+        // large objects: tens of megabytes (byte offsets beyond 2^24), from one huge block to 255 blocks
+        let T = *rng.pick(&[1024usize, 1400, 4096, 40000]);
+        let Al = if T % 8 == 0 { 8 } else { 4 };
+        let F = rng.range(17_000_000, 40_000_000) as usize;
+        let kt = F.div_ceil(T);
+        let zmin = kt.div_ceil(56403).max(1);
+        let Z = match idx % 4 {
+            0 => zmin,
+            1 => 255,
+            2 => rng.range(100, 254) as usize,
+            _ => rng.range(zmin as u64, 20.max(zmin as u64 + 1)) as usize,
+        }
+        .min(kt);
+        let N = if rng.chance(1, 3) { 2 } else { 1 };
+        Shape { F, T, Z, N, Al }
     } else if family == 3 {
         // every extended block size K' of Table 2: K = K' (no padding symbols) and K = previous K' + 1
         // (the most padding symbols this K' can have); idx = 2 * row (+1) + 954 * repetition
@@ -81,7 +98,7 @@ pub fn gen_case(seed: u64, idx: u64, family: u64, max_kt: usize, max_t: usize) -
     let threshold = if family == 3 && shape.kt() > 1000 { *rng.pick(&THRESHOLDS[..2]) } else { *rng.pick(&THRESHOLDS) };
     let incremental_api = rng.chance(2, 5);
     let ks = shape.block_ks();
-    let drop_pct = if family == 1 { rng.below(4) } else { *rng.pick(&[0u64, 0, 5, 10, 20, 30, 50, 70]) };
+    let drop_pct = if family == 4 { rng.below(2) } else if family == 1 { rng.below(4) } else { *rng.pick(&[0u64, 0, 5, 10, 20, 30, 50, 70]) };
     let mut history: Vec<(u8, u32)> = vec![];
     for (z, &K) in ks.iter().enumerate() {
         let mut lost = 0usize;
@@ -129,7 +146,7 @@ pub fn gen_case(seed: u64, idx: u64, family: u64, max_kt: usize, max_t: usize) -
         }
     }
     // duplication 0..3x
-    let dup_pct = if family == 3 { 0 } else { *rng.pick(&[0u64, 0, 10, 30]) };
+    let dup_pct = if family == 3 || family == 4 { 0 } else { *rng.pick(&[0u64, 0, 10, 30]) };
     let n0 = history.len();
     for i in 0..n0 {
         if rng.below(100) < dup_pct {
@@ -417,6 +434,16 @@ pub fn run(ctx: &Ctx) -> i32 {
         st.big_blocks.fetch_add(1, Relaxed);
         ctx.eval(1);
     });
+    let nlarge = ctx.args.ex_u64("nlarge", if ctx.args.ex("n").is_some() { 0 } else { ctx.args.pick(3, 24) }) as usize;
+    par_for_threads(threads().min(4), nlarge, |i| {
+        crashlog::note(crashlog::CASE, &[ctx.seed(), i as u64, 4, 0, 0, 0]);
+        let c = gen_case(ctx.seed(), i as u64, 4, 0, 0);
+        let rj = case_json(ctx.seed(), i as u64, 4, 0, 0, &c);
+        run_case(ctx, &c, rj, &st);
+        st.large_objects.fetch_add(1, Relaxed);
+        ctx.eval(1);
+    });
+    ctx.cov("large_object_cases_17_to_40_MB", J::i(st.large_objects.load(Relaxed)));
     let nhuge = ctx.args.ex_u64("nhuge", ctx.args.pick(60, 1500)) as usize;
     par_for(nhuge, |i| {
         crashlog::note(crashlog::CASE, &[ctx.seed(), i as u64, 2, 0, 0, 0]);
